@@ -1,14 +1,16 @@
 import PV.Common.Proto
 import PV.C02.Model
 import PV.C02.RParse
+import PV.C02.RProg
 import Drv.SexpC
+import Drv.C02Prog
 /-!
   Driver for C02: `rangesok <mode> <hex src> <hex canonical tree with ranges>` -> `ok` or `bad <violated checks>`
   computed by the Lean model `PV.C02.viol` (= [] iff `rangesOk`).  The harness answers `ok` when the tree in
   the request is what the real parser produces for the source (so a disagreement means: the real tree fails
   the structural property).
 -/
-open PV PV.C02 SexpC PV.Expr PV.C11
+open PV PV.C02 SexpC PV.Expr PV.C11 PV.Prog
 
 def parseRange (s : String) : Option (Nat × Nat) :=
   if s.startsWith "@" then
@@ -164,6 +166,132 @@ def handleRExpr (src att : String) : String :=
         | some e => answerTree e
   | _, _ => "bad-request"
 
+
+/-! ### `rprog <mode> <hex src> <tokens> <spans>`: the ranged canonical tree of a whole PROGRAM computed by the model
+  `PV.C02.parseRProgram` (lean/PV/C02/RProg.lean, ranged twin of `PV.Prog.parseProgram`) from the REAL token stream
+  (after the soft-keyword pass, `pvh_c01 rtoks`) and the real byte spans of those tokens. -/
+
+def identS (n : Ident) : String := "s:" ++ hexU n
+def optIdentS : Option Ident → String
+  | none => "None"
+  | some n => identS n
+
+def dumpArg (a : RArg) : String :=
+  s!"(Arg {rgS a.rg} (arg {identS a.name}) (annotation {optS dumpR a.annotation}) (type_comment None))"
+
+def dumpArgD (p : RArgD) : String :=
+  s!"(ArgWithDefault {rgS p.rg} (def {dumpArg p.arg}) (default {optS dumpR p.default}))"
+
+def dumpArguments (a : RArguments) : String :=
+  s!"(Arguments {rgS a.rg} (posonlyargs {listS (a.posonly.map dumpArgD)}) (args {listS (a.args.map dumpArgD)}) (vararg {optS dumpArg a.vararg}) (kwonlyargs {listS (a.kwonly.map dumpArgD)}) (kwarg {optS dumpArg a.kwarg}))"
+
+def dumpTypeParam : RTypeParam → String
+  | .typeVar rg n b => s!"(TypeParamTypeVar {rgS rg} (name {identS n}) (bound {optS dumpR b}))"
+  | .paramSpec rg n => s!"(TypeParamParamSpec {rgS rg} (name {identS n}))"
+  | .typeVarTuple rg n => s!"(TypeParamTypeVarTuple {rgS rg} (name {identS n}))"
+
+def dumpAlias (a : RAlias) : String := s!"(Alias {rgS a.rg} (name {identS a.name}) (asname {optIdentS a.asname}))"
+
+def dumpWithItem (w : RWithItem) : String :=
+  s!"(WithItem {rgS w.rg} (context_expr {dumpR w.contextExpr}) (optional_vars {optS dumpR w.optionalVars}))"
+
+def singletonS : Const → String
+  | .none => "None"
+  | .bool true => "(Bool true)"
+  | .bool false => "(Bool false)"
+  | _ => "?"
+
+partial def dumpPat : RPattern → String
+  | .matchValue rg v => s!"(PatternMatchValue {rgS rg} (value {dumpR v}))"
+  | .matchSingleton rg c => s!"(PatternMatchSingleton {rgS rg} (value {singletonS c}))"
+  | .matchSequence rg ps => s!"(PatternMatchSequence {rgS rg} (patterns {listS (ps.map dumpPat)}))"
+  | .matchMapping rg ks ps r =>
+    s!"(PatternMatchMapping {rgS rg} (keys {listS (ks.map dumpR)}) (patterns {listS (ps.map dumpPat)}) (rest {optIdentS r}))"
+  | .matchClass rg c ps ka kp =>
+    s!"(PatternMatchClass {rgS rg} (cls {dumpR c}) (patterns {listS (ps.map dumpPat)}) (kwd_attrs {listS (ka.map identS)}) (kwd_patterns {listS (kp.map dumpPat)}))"
+  | .matchStar rg n => s!"(PatternMatchStar {rgS rg} (name {optIdentS n}))"
+  | .matchAs rg p n => s!"(PatternMatchAs {rgS rg} (pattern {optS dumpPat p}) (name {optIdentS n}))"
+  | .matchOr rg ps => s!"(PatternMatchOr {rgS rg} (patterns {listS (ps.map dumpPat)}))"
+
+def boolS (b : Bool) : String := if b then "true" else "false"
+
+mutual
+partial def dumpStmtR : RStmt → String
+  | .functionDef rg n a b d r tp => dumpDefR "StmtFunctionDef" rg n a b d r tp
+  | .asyncFunctionDef rg n a b d r tp => dumpDefR "StmtAsyncFunctionDef" rg n a b d r tp
+  | .classDef rg n bs ks b d tp =>
+    s!"(StmtClassDef {rgS rg} (name {identS n}) (bases {listS (bs.map dumpR)}) (keywords {listS (ks.map dumpKw)}) (body {dumpBodyR b}) (decorator_list {listS (d.map dumpR)}) (type_params {listS (tp.map dumpTypeParam)}))"
+  | .return rg v => s!"(StmtReturn {rgS rg} (value {optS dumpR v}))"
+  | .delete rg ts => s!"(StmtDelete {rgS rg} (targets {listS (ts.map dumpR)}))"
+  | .assign rg ts v => s!"(StmtAssign {rgS rg} (targets {listS (ts.map dumpR)}) (value {dumpR v}) (type_comment None))"
+  | .typeAlias rg n tp v =>
+    s!"(StmtTypeAlias {rgS rg} (name {dumpR n}) (type_params {listS (tp.map dumpTypeParam)}) (value {dumpR v}))"
+  | .augAssign rg t o v => s!"(StmtAugAssign {rgS rg} (target {dumpR t}) (op {binOpName o}) (value {dumpR v}))"
+  | .annAssign rg t a v s =>
+    s!"(StmtAnnAssign {rgS rg} (target {dumpR t}) (annotation {dumpR a}) (value {optS dumpR v}) (simple {boolS s}))"
+  | .for rg t i b o => dumpForR "StmtFor" rg t i b o
+  | .asyncFor rg t i b o => dumpForR "StmtAsyncFor" rg t i b o
+  | .while rg t b o => s!"(StmtWhile {rgS rg} (test {dumpR t}) (body {dumpBodyR b}) (orelse {dumpBodyR o}))"
+  | .if rg t b o => s!"(StmtIf {rgS rg} (test {dumpR t}) (body {dumpBodyR b}) (orelse {dumpBodyR o}))"
+  | .with rg items b =>
+    s!"(StmtWith {rgS rg} (items {listS (items.map dumpWithItem)}) (body {dumpBodyR b}) (type_comment None))"
+  | .asyncWith rg items b =>
+    s!"(StmtAsyncWith {rgS rg} (items {listS (items.map dumpWithItem)}) (body {dumpBodyR b}) (type_comment None))"
+  | .match rg s cs =>
+    s!"(StmtMatch {rgS rg} (subject {dumpR s}) (cases {listS (cs.map fun
+      | .mk crg p g b => s!"(MatchCase {rgS crg} (pattern {dumpPat p}) (guard {optS dumpR g}) (body {dumpBodyR b}))")}))"
+  | .raise rg e c => s!"(StmtRaise {rgS rg} (exc {optS dumpR e}) (cause {optS dumpR c}))"
+  | .try rg b hs o f => dumpTryR "StmtTry" rg b hs o f
+  | .tryStar rg b hs o f => dumpTryR "StmtTryStar" rg b hs o f
+  | .assert rg t m => s!"(StmtAssert {rgS rg} (test {dumpR t}) (msg {optS dumpR m}))"
+  | .import rg ns => s!"(StmtImport {rgS rg} (names {listS (ns.map dumpAlias)}))"
+  | .importFrom rg m ns l =>
+    s!"(StmtImportFrom {rgS rg} (module {optIdentS m}) (names {listS (ns.map dumpAlias)}) (level {match l with | some k => s!"(Int i:{k})" | none => "None"}))"
+  | .global rg ns => s!"(StmtGlobal {rgS rg} (names {listS (ns.map identS)}))"
+  | .nonlocal rg ns => s!"(StmtNonlocal {rgS rg} (names {listS (ns.map identS)}))"
+  | .expr rg e => s!"(StmtExpr {rgS rg} (value {dumpR e}))"
+  | .pass rg => s!"(StmtPass {rgS rg})"
+  | .break rg => s!"(StmtBreak {rgS rg})"
+  | .continue rg => s!"(StmtContinue {rgS rg})"
+partial def dumpBodyR (ss : List RStmt) : String := listS (ss.map dumpStmtR)
+partial def dumpDefR (tag : String) (rg : Rg) (n : Ident) (a : RArguments) (b : List RStmt) (d : List RExpr)
+    (r : Option RExpr) (tp : List RTypeParam) : String :=
+  s!"({tag} {rgS rg} (name {identS n}) (args {dumpArguments a}) (body {dumpBodyR b}) (decorator_list {listS (d.map dumpR)}) (returns {optS dumpR r}) (type_comment None) (type_params {listS (tp.map dumpTypeParam)}))"
+partial def dumpForR (tag : String) (rg : Rg) (t i : RExpr) (b o : List RStmt) : String :=
+  s!"({tag} {rgS rg} (target {dumpR t}) (iter {dumpR i}) (body {dumpBodyR b}) (orelse {dumpBodyR o}) (type_comment None))"
+partial def dumpTryR (tag : String) (rg : Rg) (b : List RStmt) (hs : List RHandler) (o f : List RStmt) : String :=
+  s!"({tag} {rgS rg} (body {dumpBodyR b}) (handlers {listS (hs.map fun
+    | .mk hrg ty nm hb => s!"(ExceptHandlerExceptHandler {rgS hrg} (type_ {optS dumpR ty}) (name {optIdentS nm}) (body {dumpBodyR hb}))")}) (orelse {dumpBodyR o}) (finalbody {dumpBodyR f}))"
+end
+
+def dumpRMod : RMod → String
+  | .module rg b => s!"(ModModule {rgS rg} (body {dumpBodyR b}) (type_ignores []))"
+  | .interactive rg b => s!"(ModInteractive {rgS rg} (body {dumpBodyR b}))"
+  | .expression rg e => s!"(ModExpression {rgS rg} (body {dumpR e}))"
+
+/-- the answer for a ranged program tree: its canonical text, after checking that the generic tree the theorems talk
+    about (`RMod.tree`) is the one the canonical text denotes -/
+def answerMod (m : RMod) : String :=
+  let text := dumpRMod m
+  match parseSexp text with
+  | some raw =>
+    match toTree "root" false raw with
+    | some t => if treeEq t m.tree then text else "toTree-mismatch " ++ text
+    | none => "toTree-unreadable " ++ text
+  | none => "sexp-unreadable " ++ text
+
+def handleRProg (mode toks att : String) : String :=
+  match C02Prog.modeOfStr mode, C02Prog.decodeToks toks, parseSpans att with
+  | some md, some tks, some spans =>
+    if tks.length != spans.length then s!"tok-count-mismatch {tks.length} {spans.length}"
+    else
+      let rtoks : List RPTok := (tks.zip spans).map fun (t, (a, b)) => ⟨t, a, b⟩
+      match parseRProgramA md rtoks with
+      | none => "parse-none"
+      | some m => answerMod m
+  | _, none, _ => "parse-none"
+  | _, _, _ => "bad-request"
+
 def handle : List String → String
   | ["rangesok", _mode, src, tree] =>
     match unhex src, (unhex tree).bind utf8Decode with
@@ -178,6 +306,7 @@ def handle : List String → String
       | none => "bad-sexp"
     | _, _ => "bad-request"
   | ["rexpr", src, att] => handleRExpr src att
+  | ["rprog", mode, _src, toks, att] => handleRProg mode toks att
   | _ => "bad-request"
 
 def main : IO Unit := protoLoop handle
